@@ -373,7 +373,8 @@ func edJudge(p *Prog, call ssa.CallInstruction) edVerdict {
 		}
 	}
 	if g := StaticCallee(call); g != nil && inModule(g) && len(ifs) > 0 {
-		if sentinel := edSingleCause(g); sentinel != "" {
+		// only "not found" is an answer rather than a failure
+		if sentinel := edSingleCause(g); sentinel == "~/errdef.ErrNotFound" {
 			return edVerdict{ok: true, how: "the callee fails in exactly one way (" + sentinel + "): comparing its error with nil is the classification"}
 		}
 	}
